@@ -302,6 +302,18 @@ package kubeeventsmanager
 //@ trusted func Factory.cancel
 //@   modifies nFactoryCancel
 //@   ghostset nFactoryCancel := nFactoryCancel + 1
+// C01 / C02: informers with the same resource, namespace and selectors share one factory. Its
+// context must not derive from the context of the monitor (or namespace) that happened to create it:
+// stopping that monitor would silence every other binding registered on the shared informer, which
+// has passed its Synchronization and would lose every later change. The store's own Stop ends a
+// factory, when its last user has gone.
+//@ pure context.Background
+//@ func (*FactoryStore).add
+//@   prop C01, C02
+//@   requires c != nil && c.data != nil
+//@   modifies mapof(c.data), nCtx, ctxLog, ctxParent, ctxCancel
+//@   ensures [shared-factory-outlives-its-first-user] has(c.data, index) && ctxParentOf(c.data[index].ctx) == context.Background()
+//@   ensures [other-factories-kept] forall(i, FactoryIndex, i != index ==> has(c.data, i) == old(has(c.data, i)) && c.data[i] == old(c.data[i]))
 //@ func (*FactoryStore).Stop
 //@   prop C02, C01
 //@   requires c.data != nil && forall(i, FactoryIndex, has(c.data, i) ==> c.data[i].handlerRegistrations != nil)
